@@ -1824,7 +1824,11 @@ def judge_scene(spec, fmt, eo, lo, route):
         try:
             got = do_load(fmt, payload, route, lo)
         except LibraryError as e:
-            res.add(e.sym, {"error": str(e)})
+            # a file the exporter wrote with two objects under one id (finding T4: a node named like
+            # a geometry and having children) is refused by the 3MF loader since 7aee799 (an object
+            # that contains itself): same mechanism, seen as a refusal instead of misplaced instances
+            collides = fmt == "3mf" and any(f == "node=collides" for _, _, _, f in spec.instances())
+            res.add(e.sym, {"error": str(e)}, feat="node=collides" if collides else None)
             return res
         inst, loops = instances_of(got)
         res.info["self_loops"] = loops
